@@ -68,7 +68,7 @@ def attr_c19(ev, names):
 
 PROPS = {
     "C01": dict(
-        mc=[("MC_BigNat", None), ("MC_Round", None)],
+        mc=[("MC_BigNat", None), ("MC_Round", None), ("MC_AlgRound", None), ("MC_AlgRound", "MC_AlgRound_pinned", "expect-violation")],
         drivers=["arithS", "arithL", "ctxparse"],
         attr=attr_c01,
         rule="every recorded Add/Sub/Mul/Quo/Abs/Neg/Round call (domain S from the spec, seeded domain L) is judged by "
